@@ -1,6 +1,7 @@
 import Driver.Util
 import GitBugModel.Model.GitTree
 import GitBugModel.Model.Ident
+import GitBugModel.Model.Config
 /-! Driver command for C15: git's tree order and what fsck accepts. -/
 namespace Driver.C15
 open Lean Driver GitBugModel.GitTree
@@ -25,6 +26,25 @@ def handle (j : Json) : Json :=
     let line := n ++ [' ', '<'] ++ e ++ ['>']
     Json.mkObj [("line", Json.str (String.ofList line)),
                 ("fsck", Json.bool ((GitBugModel.Ident.fsckIdent (GitBugModel.Ident.identLine n e "1790748343 +0000".toList)).isNone))]
+  | "config" =>
+    -- sections as written; a prefix to remove: the keys left (sorted), or the error
+    let optsOf (j : Json) : List (String × String) := (getArr j "options").filterMap fun o =>
+      match o with
+      | Json.arr a => match a.toList with
+        | [Json.str k, Json.str v] => some (k, v)
+        | _ => none
+      | _ => none
+    let cfg : GitBugModel.Config.Cfg := (getArr j "sections").map fun s =>
+      { name := getStr s "name", options := optsOf s,
+        subs := (getArr s "subs").map fun sb => { name := getStr sb "name", options := optsOf sb } }
+    let parts := (getStr j "prefix").splitOn "."
+    let sec := parts.headD ""
+    let rest := if parts.length ≤ 1 then none else some (".".intercalate parts.tail)
+    match GitBugModel.Config.removeAll String.toLower cfg sec rest with
+    | .ok c' =>
+      let ks := ((GitBugModel.Config.keys c').toArray.qsort (· < ·)).toList
+      Json.mkObj [("err", Json.bool false), ("keys", jstrs ks)]
+    | .invalidPrefix => Json.mkObj [("err", Json.bool true), ("keys", Json.null)]
   | c => Json.mkObj [("bad-op", Json.str c)]
 
 end Driver.C15
